@@ -111,6 +111,18 @@ class C12(Check):
             ctx.observe(res=list(res))
             ctx.reach()
             self._assert_opt(ctx, res, N, c, mode, 'optimalPartition')
+            # the caller's matrix is an input: it must come back unchanged, and asking again must give the same optimum
+            for i in range(N):
+                for j in range(i + 1, N):
+                    if C[i, j] is not C[j, i] or zreal(C[i, j]) is not c[(i, j)] and not z3.eq(zreal(C[i, j]), c[(i, j)]):
+                        ctx.fail('optimalPartition modified the cost matrix it was given')
+                        return
+            try:
+                res2 = seg.optimalPartition(C, mode, verbose=False)
+            except Exception as e:
+                ctx.fail('a second optimalPartition call on the same matrix raised %s' % type(e).__name__)
+                return
+            self._assert_opt(ctx, res2, N, c, mode, 'optimalPartition (second call on the same matrix)')
         elif job['kind'] == 'seg':
             from checks.c11 import make_track
             size = job['size']
@@ -178,7 +190,17 @@ class C12(Check):
                 res = [int(x) for x in seg.optimalPartition(C, mode, verbose=False)]
             except Exception as e:
                 return dict(violation='optimalPartition raised %s: %s' % (type(e).__name__, e))
-            return self._conc_opt(res, N, c, mode, 'optimalPartition')
+            r1 = self._conc_opt(res, N, c, mode, 'optimalPartition')
+            if r1.get('violation'):
+                return r1
+            if any(C[i, j] != c[(i, j)] or C[j, i] != c[(i, j)] for (i, j) in c):
+                return dict(violation='optimalPartition modified the cost matrix it was given (upper triangle was %r, now %r)' % (c, {k: float(C[k]) for k in c}), outputs=r1.get('outputs'))
+            try:
+                res2 = [int(x) for x in seg.optimalPartition(C, mode, verbose=False)]
+            except Exception as e:
+                return dict(violation='second optimalPartition call raised %s: %s' % (type(e).__name__, e))
+            r2 = self._conc_opt(res2, N, c, mode, 'optimalPartition (second call on the same matrix)')
+            return dict(violation=r2.get('violation'), outputs=r1.get('outputs'))
         if job['kind'] == 'seg':
             from checks.c11 import make_track
             size = job['size']
